@@ -1,10 +1,16 @@
 /* C07 T-chk: work counters for one conversion.  Input: <fmt> <ext> <hex source>
-   Output: "<pair steps (hook H2)> <tokens allocated (hook H1)> <output length>" */
+   Output: "<pair steps (hook H2)> <tokens allocated (hook H1)> <output length> <basic blocks>"
+   basic blocks: in the "cov" build variant every object of the library is compiled with -fsanitize-coverage=trace-pc,
+   which calls __sanitizer_cov_trace_pc() once per executed basic block; the count is the property's own cost measure
+   ("executed basic blocks, not seconds").  0 in the other variants. */
 #include "hcommon.h"
 #include "libMultiMarkdown.h"
 #include "token.h"
 extern __thread unsigned long verif_pair_steps;
 void verif_token_pool_state(long * count, long * has_pool, long * slabs, long * remaining);
+
+static unsigned long long verif_bb;
+__attribute__((no_sanitize_coverage)) void __sanitizer_cov_trace_pc(void) { verif_bb++; }
 
 int main(void) {
 	char * line;
@@ -14,11 +20,12 @@ int main(void) {
 		short fmt = (short) atoi(f[0]); unsigned long ext = strtoul(f[1], 0, 10);
 		size_t len; char * src = h_unhex(f[2], &len);
 		token_pool_init();
-		unsigned long before = verif_pair_steps;
+		unsigned long before = verif_pair_steps; unsigned long long bb0 = verif_bb;
 		char * out = mmd_string_convert(src, ext, fmt, 0);
 		long c, h, s, r; verif_token_pool_state(&c, &h, &s, &r);
 		long toks = (h && s > 0) ? s * 1024 - (r < 0 ? 0 : r) : 0;
-		printf("%lu %ld %lu\n", verif_pair_steps - before, toks, out ? (unsigned long) strlen(out) : 0UL); fflush(stdout);
+		unsigned long long bb = verif_bb - bb0;
+		printf("%lu %ld %lu %llu\n", verif_pair_steps - before, toks, out ? (unsigned long) strlen(out) : 0UL, bb); fflush(stdout);
 		free(out); free(src); free(line);
 		token_pool_drain(); token_pool_free();
 	}
